@@ -603,6 +603,10 @@ def call_ext(interp, ext, node, args, kwargs, st):
                 tags = tags | frozenset([("val-of", interp.val_id(a0))])
             if "world3" in a0.tags and name in ("array", "asarray", "copy", "asanyarray", "roll", "atleast_2d", "negative", "flip"):
                 tags = tags | frozenset(["world3"])
+            if name == "transpose" and "orth" in a0.tags and len(args) == 1 and not kwargs:
+                tags = tags | ((a0.tags - {"transposed"}) if "transposed" in a0.tags else (a0.tags | {"transposed"})) & {"orth", "proper", "transposed"}
+            elif name in ("array", "asarray", "copy", "asanyarray", "ascontiguousarray") and "orth" in a0.tags:
+                tags = tags | (a0.tags & {"orth", "proper", "transposed"})
             if "unit" in a0.tags and name in ("array", "asarray", "copy", "asanyarray", "negative", "squeeze", "atleast_1d"):
                 tags = tags | frozenset(["unit"])
             if name in ("array", "asarray", "copy", "asanyarray", "abs", "absolute", "negative"):
